@@ -3,6 +3,7 @@ mod c01;
 mod c02;
 mod probe;
 mod c03;
+mod c04;
 mod c08;
 mod c09;
 mod asis;
@@ -76,6 +77,11 @@ fn main() {
         "c02" => {
             let rep = Report::new("C02", "exploration");
             let cov = c02::run(&rep);
+            rep.finish(cov)
+        }
+        "c04" => {
+            let rep = Report::new("C04", "model_checking");
+            let cov = c04::run(&rep);
             rep.finish(cov)
         }
         _ => {
